@@ -125,7 +125,7 @@ def access_program(rng):
     U = rng.pick(["i32", "u8", "u32"])
     n = 2 + rng.below(3)
     r_, c_ = 2 + rng.below(2), 2 + rng.below(3)
-    shape = rng.pick(["A1", "A2", "S1", "AS", "SS"])
+    shape = rng.pick(["A1", "A2", "S1", "AS", "SS", "AP"])
     tags = [shape, T]
 
     def lit(t, v):
@@ -235,6 +235,16 @@ fn get_as_value(xs: []S, k: usize) -> %(U)s
     elif shape == "AS":
         root = [new_s(), new_s()]
         body.append("\tvar d: [2]S = [%s, %s];" % (s_lit(root[0]), s_lit(root[1])))
+    elif shape == "AP":
+        # an array of pointers to structures (and one of pointers to arrays): the pointees are variables of their own
+        root = [new_s(), new_s()]
+        rows = [[val() for _ in range(n)] for _ in range(2)]
+        body.append("\tvar s0 = %s;" % s_lit(root[0]))
+        body.append("\tvar s1 = %s;" % s_lit(root[1]))
+        body.append("\tvar d: [2]&S = [&s0, &s1];")
+        for k in range(2):
+            body.append("\tvar r%d: [%d]%s = [%s];" % (k, n, T, ", ".join(lit(T, v) for v in rows[k])))
+        body.append("\tvar q: [2]&[%d]%s = [&r0, &r1];" % (n, T))
     else:
         root = {"inner": new_s(), "items": [new_s(), new_s()], "tail": val()}
         body.append("\tvar d = O { inner: %s, items: [%s, %s], tail: %s };" % (
@@ -295,6 +305,19 @@ fn get_as_value(xs: []S, k: usize) -> %(U)s
             body.append("\td[%s][%s] = %s;" % (us(i), us(j), lit(T, v)) if how == "direct" else "\tset_cell(&d, %s, %s, %s);" % (us(i), us(j), lit(T, v)))
         elif shape == "S1":
             write_s("d", root)
+        elif shape == "AP":
+            k = rng.below(2)
+            c = rng.below(4)
+            if c == 0:
+                i, v = rng.below(n), val()
+                rows[k][i] = v
+                how = rng.pick(["through-array", "pointee"])
+                tags.append("w:ap.rows:" + how)
+                body.append("\tq[%s][%s] = %s;" % (us(k), us(i), lit(T, v)) if how == "through-array" else "\tr%d[%s] = %s;" % (k, us(i), lit(T, v)))
+            elif c == 1:
+                write_s("s%d" % k, root[k])
+            else:
+                write_s("d[%s]" % us(k), root[k], addr=False)
         elif shape == "AS":
             k = rng.below(2)
             if rng.chance(1, 3):
@@ -347,6 +370,15 @@ fn get_as_value(xs: []S, k: usize) -> %(U)s
                 for i in range(n):
                     reads.append(("get_as(&d, %s, %s)" % (us(k), us(i)), T, root[k]["arr"][i], 1 + k * (n + 1) + i))
                 reads.append(("get_as_value(d, %s)" % us(k), U, root[k]["value"], 1 + k * (n + 1) + n))
+        reads.append(("|d|", "usize", 2, 1))
+    elif shape == "AP":
+        for k in range(2):
+            reads += read_s("d[%s]" % us(k) if rng.chance(2, 3) else "s%d" % k, root[k], 1 + k * (n + 1), addr=False)
+            for i in range(n):
+                how = rng.pick(["through-array", "pointee"])
+                tags.append("r:ap.rows:" + how)
+                reads.append(("q[%s][%s]" % (us(k), us(i)) if how == "through-array" else "r%d[%s]" % (k, us(i)), T, rows[k][i], 2 + k + i))
+            reads.append(("|q[%s]|" % us(k), "usize", n, 1))
         reads.append(("|d|", "usize", 2, 1))
     else:
         reads += read_s("d.inner", root["inner"], 1)
